@@ -64,7 +64,7 @@ def gen_heap_case(rng):
     roots = [alloc(cc.instance(rng, sch, rng.choice([0.6, 0.9])), (), rng.choice([0.0, 0.3, 0.5]) if i == 0 else 0.05)
              for i in range(nroots)]
     # sharing: redirect some references to another node (same schema position mostly)
-    for _ in range(rng.choice([0, 1, 1, 2, 3])):
+    for _ in range(rng.choice([0, 1, 2, 2, 3, 4])):
         edges = [(a, i) for a, n in enumerate(nodes) for i, (_, v) in enumerate(n) if "ref" in v]
         if not edges:
             break
